@@ -67,7 +67,8 @@ def genX : Nat → Nat → R → X × R
       | 7 => let r := genX f 14 s1; let a := genX f 0 r.2; (X.call r.1 a.1, a.2)
       | _ => (X.id (pick ids s1), lcg s1)
     else if lv == 13 then
-      match sel s 7 with
+      match sel s 8 with
+      | 7 => let t := genTN s1; (X.alignT t.1, t.2)
       | 0 => let r := genX f 13 s1; let p := pick prefixToks r.2
              (X.pre p.1 p.2 (if p.1 == "PLUSPLUS" || p.1 == "MINUSMINUS" then noCast r.1 else r.1), lcg r.2)
       | 1 => let r := genX f 13 s1; (X.szof (noCast r.1), r.2)
